@@ -433,6 +433,9 @@ func (ex *Exec) syncPoint(what string) {
 	if sc == nil || sc.preemptLeft <= 0 || len(sc.gs) < 2 {
 		return
 	}
+	if ex.sh.params["PREAT"] == 1 && !strings.HasPrefix(what, "Unlock") && !strings.HasPrefix(what, "RUnlock") {
+		return // PREAT=1: pre-empt only right after a lock is released (the "use after unlock" window)
+	}
 	g := sc.cur
 	others := ex.runnable(g)
 	if len(others) == 0 {
@@ -484,6 +487,41 @@ type heldLock struct {
 type lockState struct {
 	writer  int // goroutine id + 1, 0 = none
 	readers map[int]int
+	at      Ptr    // where the mutex lives (for the copy-of-a-held-lock check)
+	class   string
+}
+
+// copyOfHeldLock: a struct value that embeds a sync.Mutex/RWMutex is being copied out of memory (p is loaded as a
+// whole) while that mutex is held. The copy is born locked and nobody will ever unlock it: the first Lock (or,
+// for a read-locked RWMutex, the first write Lock) on the copy blocks for ever. Reported as a lock violation.
+func (ex *Exec) copyOfHeldLock(p Ptr) {
+	if ex.locks == nil || p.obj == nil || !ex.sh.lockCheck {
+		return
+	}
+	for _, ls := range ex.locks.st {
+		if ls.at.obj != p.obj || (ls.writer == 0 && len(ls.readers) == 0) {
+			continue
+		}
+		// the mutex lies inside the loaded region iff the loaded path is a prefix of the mutex's path; loading
+		// the mutex's own (private) fields, as sync itself would, is not a copy of the enclosing value
+		if len(p.path) >= len(ls.at.path) {
+			continue
+		}
+		inside := true
+		for i := range p.path {
+			if p.path[i] != ls.at.path[i] {
+				inside = false
+				break
+			}
+		}
+		if inside {
+			site := ""
+			if n := len(ex.stack); n > 0 {
+				site = fnName(ex.stack[n-1])
+			}
+			ex.reportLock(fmt.Sprintf("a value containing %s is copied at %s while that mutex is held: the copy is born locked and is never unlocked", ls.class, site), "copy-of-held-lock:"+ls.class)
+		}
+	}
 }
 
 type lockTracker struct {
@@ -531,6 +569,7 @@ func (ex *Exec) lockOp(p Ptr, op string) {
 	}
 	g := ex.gor.cur
 	class := ex.lockClass(p)
+	ls.at, ls.class = p, class
 	site := ""
 	if n := len(ex.stack); n > 0 {
 		site = fnName(ex.stack[n-1])
